@@ -722,3 +722,265 @@ func runX12(p *an.Prog, r *an.Result) {
 		r.Bad("-", "the strict flag is never read", token.NoPos, "strict-variables mode has no effect")
 	}
 }
+
+// ---------------------------------------------------------------------------
+// F9
+
+func init() {
+	register("F9", "no number loses its fraction on the way: a floating-point value is converted to an integer type only after math.Floor/Ceil/Round/Trunc, or where the result is checked to convert back to the same value", runF9)
+}
+
+func runF9(p *an.Prog, r *an.Result) {
+	roles := GetRoles(p)
+	isFloat := func(t types.Type) bool {
+		b, ok := t.Underlying().(*types.Basic)
+		return ok && b.Info()&types.IsFloat != 0
+	}
+	isInt := func(t types.Type) bool {
+		b, ok := t.Underlying().(*types.Basic)
+		return ok && b.Info()&types.IsInteger != 0
+	}
+	for _, fn := range p.Funcs {
+		if isMainPkg(fn) || p9OutOfScope(p, fn) != "" {
+			continue
+		}
+		pk := an.RelPkg(an.Outermost(fn).Pkg.Pkg.Path())
+		if pk != "filters" && pk != "values" && pk != "tags" && pk != "render" && pk != "expressions" {
+			continue
+		}
+		name := roles.Label(fn)
+		an.EachInstr(fn, func(in ssa.Instruction) {
+			cv, ok := in.(*ssa.Convert)
+			if !ok || !isFloat(cv.X.Type()) || !isInt(cv.Type()) {
+				return
+			}
+			if _, isConst := cv.X.(*ssa.Const); isConst {
+				return
+			}
+			r.Counts["float to integer conversions"]++
+			construct := fmt.Sprintf("%s(%s)", an.TypeName(cv.Type()), describe(p, cv.X))
+			// (i) after a rounding function
+			rounded := true
+			n := 0
+			for _, o := range an.Origins(cv.X, an.StepValue) {
+				n++
+				c := an.CallOf(o)
+				if c == nil {
+					rounded = false
+					continue
+				}
+				switch an.CallName(c) {
+				case "math.Floor", "math.Ceil", "math.Round", "math.Trunc", "math.RoundToEven":
+				default:
+					rounded = false
+				}
+			}
+			if rounded && n > 0 {
+				r.OK(name, construct, cv.Pos(), "the operand is the result of math.Floor/Ceil/Round/Trunc")
+				return
+			}
+			// (ii) the result is converted back and compared with the original, and that comparison
+			// guards every other use
+			var back *ssa.BinOp
+			if cv.Referrers() != nil {
+				for _, u := range *cv.Referrers() {
+					c2, ok := u.(*ssa.Convert)
+					if !ok || !isFloat(c2.Type()) || c2.Referrers() == nil {
+						continue
+					}
+					for _, uu := range *c2.Referrers() {
+						if b, ok := uu.(*ssa.BinOp); ok && (b.Op == token.EQL || b.Op == token.NEQ) {
+							other := b.X
+							if other == ssa.Value(c2) {
+								other = b.Y
+							}
+							if sameValue(other, cv.X) {
+								back = b
+							}
+						}
+					}
+				}
+			}
+			if back != nil {
+				okUses := true
+				for _, u := range *cv.Referrers() {
+					if _, isDbg := u.(*ssa.DebugRef); isDbg {
+						continue
+					}
+					if c2, ok := u.(*ssa.Convert); ok && isFloat(c2.Type()) {
+						continue
+					}
+					guarded := an.AllPathsGuarded(u.Block(), func(cond ssa.Value, taken bool) bool {
+						return cond == ssa.Value(back) && (back.Op == token.EQL) == taken
+					})
+					if !guarded {
+						okUses = false
+					}
+				}
+				if okUses {
+					r.OK(name, construct, cv.Pos(), "every use is guarded by float(result) == original")
+					return
+				}
+			}
+			r.Bad(name, construct, cv.Pos(), fmt.Sprintf("%s converts a floating-point value to an integer without rounding it first or checking that nothing was lost: 2.5 becomes 2", an.FuncName(fn)))
+		})
+	}
+}
+
+// ---------------------------------------------------------------------------
+// X13
+
+func init() {
+	register("X13", "whether a map has a key is never judged by whether the entry is nil: in the map wrappers no branch compares the result of an entry lookup (IndexValue, PropertyValue, MapIndex(..).Interface(), an ordered map's item value) with nil - presence is IsValid() of the reflective lookup or a key comparison", runX13)
+}
+
+func runX13(p *an.Prog, r *an.Result) {
+	pkg := p.Package("values")
+	if pkg == nil {
+		r.Bad("-", "package values not found", token.NoPos, "anchor not resolved")
+		return
+	}
+	// the map wrappers: value types whose methods look entries up by key
+	isMapWrapper := func(t types.Type) bool {
+		n := an.NamedOf(t)
+		if n == nil || n.Obj().Pkg() != pkg.Pkg {
+			return false
+		}
+		st, ok := n.Underlying().(*types.Struct)
+		if !ok {
+			return false
+		}
+		name := strings.ToLower(n.Obj().Name())
+		_ = st
+		return strings.Contains(name, "map")
+	}
+	var nilValueG *ssa.Global
+	if g, ok := pkg.Members["nilValue"].(*ssa.Global); ok {
+		nilValueG = g
+	}
+	isNilish := func(v ssa.Value) bool {
+		if an.IsNilConst(v) {
+			return true
+		}
+		for _, o := range an.Origins(v, an.StepValue) {
+			if u, ok := o.(*ssa.UnOp); ok && nilValueG != nil && u.X == ssa.Value(nilValueG) {
+				return true
+			}
+		}
+		return false
+	}
+	var isEntry func(v ssa.Value) string
+	isEntry = func(v ssa.Value) string {
+		for _, o := range an.Origins(v, an.StepValue) {
+			c := an.CallOf(o)
+			if c == nil {
+				continue
+			}
+			// entry.Interface()
+			if c.IsInvoke() && c.Method.Name() == "Interface" {
+				if w := isEntry(c.Value); w != "" {
+					return w + ".Interface()"
+				}
+			}
+			if f := c.StaticCallee(); f != nil && f.Signature.Recv() != nil && isMapWrapper(f.Signature.Recv().Type()) && (f.Name() == "IndexValue" || f.Name() == "PropertyValue") {
+				return an.FuncName(f)
+			}
+			if an.CallName(c) == "(reflect.Value).Interface" {
+				if mc := an.CallOf(c.Args[0]); mc != nil && an.CallName(mc) == "(reflect.Value).MapIndex" {
+					return "MapIndex(..).Interface()"
+				}
+			}
+		}
+		return ""
+	}
+	for _, fn := range p.Funcs {
+		if fn.Signature.Recv() == nil || !isMapWrapper(fn.Signature.Recv().Type()) {
+			continue
+		}
+		name := an.FuncName(fn)
+		r.Counts["map wrapper methods"]++
+		bad := false
+		an.EachInstr(fn, func(in ssa.Instruction) {
+			b, ok := in.(*ssa.BinOp)
+			if !ok || (b.Op != token.EQL && b.Op != token.NEQ) {
+				return
+			}
+			for _, pair := range [][2]ssa.Value{{b.X, b.Y}, {b.Y, b.X}} {
+				if !isNilish(pair[1]) {
+					continue
+				}
+				if what := isEntry(pair[0]); what != "" {
+					bad = true
+					r.Bad(name, "presence judged by comparing an entry with nil", b.Pos(), fmt.Sprintf("%s compares the result of %s with nil: a key that is present with a nil value is treated as missing (contains answers false, .size answers the entry count)", name, what))
+				}
+			}
+		})
+		if !bad {
+			r.OK(name, "no entry is compared with nil to decide presence", an.FuncPos(fn), "")
+		}
+	}
+	r.Floor("map wrapper methods", 4)
+}
+
+// ---------------------------------------------------------------------------
+// F8
+
+func init() {
+	register("F8", "a result slice is either made with its final length and filled by index, or made empty and appended to: no slice created with a non-zero length is then grown with append (which would leave that many zero elements in front)", runF8)
+}
+
+func runF8(p *an.Prog, r *an.Result) {
+	roles := GetRoles(p)
+	for _, fn := range p.Funcs {
+		if isMainPkg(fn) || p9OutOfScope(p, fn) != "" {
+			continue
+		}
+		name := roles.Label(fn)
+		an.EachInstr(fn, func(in ssa.Instruction) {
+			ms, ok := in.(*ssa.MakeSlice)
+			if !ok {
+				return
+			}
+			if c, isC := an.ConstInt(ms.Len); isC && c == 0 {
+				return
+			}
+			r.Counts["slices made with a length"]++
+			// does it (through phis) become the first operand of an append?
+			appended := false
+			var pos token.Pos
+			seen := map[ssa.Value]bool{}
+			var walk func(v ssa.Value)
+			walk = func(v ssa.Value) {
+				if seen[v] || v.Referrers() == nil || appended {
+					return
+				}
+				seen[v] = true
+				for _, u := range *v.Referrers() {
+					switch x := u.(type) {
+					case *ssa.Phi:
+						walk(x)
+					case *ssa.Call:
+						if b, ok := x.Call.Value.(*ssa.Builtin); ok && b.Name() == "append" && x.Call.Args[0] == v {
+							appended, pos = true, x.Pos()
+						}
+					case *ssa.Store:
+						if al, ok := x.Addr.(*ssa.Alloc); ok && x.Val == v && al.Referrers() != nil {
+							for _, l := range *al.Referrers() {
+								if ld, ok := l.(*ssa.UnOp); ok {
+									walk(ld)
+								}
+							}
+						}
+					}
+				}
+			}
+			walk(ms)
+			if appended {
+				r.Bad(name, "make with a length, then append", pos, fmt.Sprintf("%s creates the slice with %s elements and then appends: the result starts with that many zero values", an.FuncName(fn), describe(p, ms.Len)))
+			} else {
+				r.OK(name, "slice made with a length is not appended to", ms.Pos(), "")
+			}
+		})
+	}
+	r.Floor("slices made with a length", 3)
+}
